@@ -470,6 +470,28 @@ impl Model for MatModel {
 pub fn run(replay: Option<Value>) -> i32 {
     let mut rep = Report::new("C17", "model_checking");
     if let Some(case) = replay {
+        if let Some(label) = case["constructor"].as_str() {
+            let n = case["n"].as_u64().unwrap_or(1) as usize;
+            for (l, res, dense) in constructors(n) {
+                if l == label {
+                    let bad = match res {
+                        Err(p) => Some(format!("panicked: {}", p)),
+                        Ok(m) => disagree(&m, &dense),
+                    };
+                    return match bad {
+                        Some(m) => {
+                            println!("replay: VIOLATED: constructor {} (n={}): {}", label, n, m);
+                            1
+                        }
+                        None => {
+                            println!("replay: property holds for this constructor");
+                            0
+                        }
+                    };
+                }
+            }
+            return 2;
+        }
         let s = St::from_json(&case["state"]);
         let a = act_from_json(&case["action"]);
         let ops = operands(s.n as usize);
